@@ -92,7 +92,13 @@ def props_block(w, entries, rng, hook=None):
     if hook:
         hook(entries, rng)
     if rng is not None:
-        rng.shuffle(entries)
+        # any order is legal; repeated properties (user properties, subscription ids) keep their relative order
+        shuffled = list(entries)
+        rng.shuffle(shuffled)
+        queues = {}
+        for e in entries:
+            queues.setdefault(bytes(e.b[:1]), []).append(e)
+        entries = [queues[bytes(e.b[:1])].pop(0) for e in shuffled]
     body = W()
     for e in entries:
         body.embed(e)
@@ -110,8 +116,8 @@ def frame(first_byte, body):
 # ------------------------------------------------------------------ random values
 SMALL_LENS = [0, 1, 2, 127, 128, 200]
 BIG_LENS = [16383, 16384, 65535]
-CHARS = ["a", "b", "z", "0", "/", "+", "#", "$", " ", "é", "€", "\U0001d11e", "\u0000", "퟿", "",
-         "￿", "\U0010ffff", "\u0080", "߿", "ࠀ", "\U00010000"]
+CHARS = ["a", "b", "z", "0", "/", "+", "#", "$", " ", "\u00e9", "\u20ac", "\U0001d11e", "\u0000", "\ud7ff", "\ue000",
+         "\uffff", "\U0010ffff", "\u0080", "\u07ff", "\u0800", "\U00010000"]
 
 
 def rlen(rng, big):
@@ -131,7 +137,7 @@ def rstr(rng, big=False, n=None):
     ascii_only = rng.random() < 0.5 or n > 300
     while len(out) < n:
         c = "a" if ascii_only else rng.choice(CHARS)
-        e = c.encode("utf-8", "surrogatepass") if False else c.encode("utf-8")
+        e = c.encode("utf-8")
         if len(out) + len(e) <= n:
             out += e
         else:
@@ -1068,13 +1074,11 @@ def sniff_cases(rng, n):
     for _ in range(n):
         bases.append(wire_connect3(rng))
         bases.append(wire(gen_connect(rng), rng)[0])
-    # pad remaining length var-ints to 2..4 bytes (non-minimal encodings are accepted by the sniffer)
+    # non-minimal remaining-length var-ints of 2..4 bytes (accepted by decode_variable_length)
     for fr in list(bases[:n]):
-        body = fr[2:] if fr[1] < 128 else None
-        if body is not None:
-            for pad in (b"\x80\x00", b"\x80\x80\x00", b"\x80\x80\x80\x00"):
-                rl = len(body)
-                bases.append(bytes([0x10, (rl & 127) | 128]) + pad[1:] + body if rl < 128 else fr)
+        if fr[1] < 128:
+            for pad in (b"\x00", b"\x80\x00", b"\x80\x80\x00"):
+                bases.append(bytes([0x10, fr[1] | 128]) + pad + fr[2:])
     for fr in bases:
         for k in range(0, min(len(fr), 16) + 1):
             add(fr[:k])
@@ -1107,6 +1111,29 @@ def sniff_cases(rng, n):
         add(bytes([a, 0x07, 0x00, 0x04]) + b"MQTT\x04")
     add(b"")
     return out
+
+
+# ---- conformance self-check: what a spec-conformant decoder must answer for the valid frames
+def selfcheck(rng, n):
+    """(cases, expected observations) for single valid frames delivered at once"""
+    cases, exp = [], []
+    packets = all_reason_code_packets(rng)
+    for t in KINDS:
+        for _ in range(n):
+            packets.append(gen_packet(rng, t, big=rng.random() < 0.03))
+    for p in packets:
+        if p["t"] == T_PUBLISH:
+            payload = rbin(rng, n=p["payload_size"])
+            fr, _ = wire(p, rng, payload=payload)
+            item = [2, rl_of(fr)] + dump_publish(p) + d_bytes(payload)
+            npi = 0
+        else:
+            fr, _ = wire(p, rng)
+            item = [1, rl_of(fr)] + dump_packet(p)
+            npi = 1 if (p["t"] == T_CONNECT and not p["req_problem"]) else 0
+        cases.append(dec_case(fr))
+        exp.append(nums(item) + ";5,0,0,%d" % npi)
+    return cases, exp
 
 
 # ------------------------------------------------------------------ suites
